@@ -154,7 +154,7 @@ mod verif_kani_tokrollback {
 
         let r = tp.rollback(n);
 
-        kani::cover!(r.is_ok() && n == NTOK && NTOK > 0);
+        kani::cover!(r.is_ok());
         kani::cover!(r.is_err());
         if n == 0 {
             assert!(r.is_ok() && tp.parser.calls == 0 && tp.llm_tokens.len() == NTOK && tp.stop_reason == old_stop);
